@@ -95,7 +95,7 @@ def main(run):
 
     # ------------------------------------------------------------ spglib directly vs model table
     nmax = 6 if thorough else 4
-    ndirect = 1500 if thorough else 250
+    ndirect = 4000 if thorough else 250
     for _ in range(ndirect):
         key = rng.choice(keys)
         rots = groups[key][0]
@@ -122,7 +122,7 @@ def main(run):
         run.count("spglib-direct", section="correspondence")
 
     # ------------------------------------------------------------ GridPoints vs model + oracle
-    ncase = 1200 if thorough else 260
+    ncase = 3000 if thorough else 260
     viol_seen = set()
     # designated region: groups for which spglib's fast-path guard (looks for +1 axis exchanges only) and phonopy's
     # guard (_has_mesh_symmetry, looks at mesh numbers only) both let a half shift on one of two exchanged axes through
@@ -398,7 +398,7 @@ def _same_grid(gp, m, info):
 
 def _end_to_end(run, rng, thorough):
     """Phonopy.run_mesh + thermal properties + smearing DOS with mesh symmetry on/off; init_mesh with IterMesh."""
-    ncell = 10 if thorough else 4
+    ncell = 16 if thorough else 4
     names = ["cscl", "nacl_prim", "zincblende_prim", "hcp", "bct", "rhombo", "mono_P", "triclinic", "wurtzite", "mono_Cm", "trig_P3"]
     done = 0
     tries = 0
